@@ -263,6 +263,19 @@ def _size_path(chk: Check, bi) -> None:
                     continue
                 if (rel == "Lt" and not bi_.value) or (rel == "GtE" and bi_.value):
                     not_smaller.add(b)
+    # nothing may fail between storing the new size and truncating: a raise in between leaves
+    # more stored bytes than the size says (the caller may catch it and carry on)
+    stores_sz = cfg.nodes_where(lambda n: isinstance(n, ast.Assign) and any(
+        attr_path(t) in ((me, "_size"),) for t in n.targets)) | cfg.nodes_where(
+        lambda n: isinstance(n, ast.Call) and attr_path(n.func) == ("setattr",))
+    raises = cfg.nodes_where(lambda n: isinstance(n, ast.Raise))
+    between = [r_ for r_ in raises for st_ in stores_sz
+               if r_ in cfg.reachable(st_) and cfg.path_avoiding(st_, r_, cuts) is not None]
+    chk.ob("R19.3", key + ":nothing-fails-between-store-and-truncation", not between,
+           s.loc(cfg.info[between[0]].ast) if between else s.loc(),
+           "the size setter can raise after the new size is stored and before the contents are truncated "
+           "(%s): a caller that catches the error keeps an interval with more stored bytes than its size"
+           % (unparse(cfg.info[between[0]].ast)[:50] if between else "-"), 2)
     wit = cfg.path_avoiding(cfg.entry, cfg.exit, cuts | not_smaller)
     chk.ob("R19.3", key + ":shrink-truncates-contents", bool(cuts) and wit is None, s.loc(),
            "a path through the size setter does not truncate contents when the new size is below "
